@@ -193,6 +193,7 @@ class Engine:
         self.inlined = set()
         self.notes = []
         self.shared_types = {}
+        self.bounded = None  # refutation mode: sequences have at most this many items, spec quantifiers are expanded
 
     def intern(self, obj, key=None):
         key = key if key is not None else id(obj)
@@ -259,6 +260,11 @@ class Ctx:
             f = z3.BoolVal(f)
         f = z3.simplify(f)
         if z3.is_true(f):
+            return
+        if z3.is_and(f):
+            # conjuncts separately: the quantifier-free ones still reach the feasibility solver
+            for ch in f.children():
+                self.assume(ch)
             return
         self.pc.append(f)
         # the feasibility solver sees only the quantifier-free part of the path condition (an
@@ -357,6 +363,8 @@ class Ctx:
             self.assume_class(t, ty)
             if isinstance(ty, TSeq):
                 self.assume(z3.Select(self.field_array("$len"), Z.Val.id(t)) >= 0)
+                if getattr(self.E, "bounded", None) is not None:
+                    self.assume(z3.Select(self.field_array("$len"), Z.Val.id(t)) <= self.E.bounded)
             elif isinstance(ty, TTuple):
                 self.assume(z3.Select(self.field_array("$len"), Z.Val.id(t)) == len(ty.elems))
         return SV(t, ty)
@@ -373,11 +381,47 @@ class Ctx:
     def touch(self, sv, depth=2):
         """eagerly assume the shape invariants of every declared field of an object (the pre-state is well-shaped)"""
         ty = self.resolve_ty(sv.ty)
+        B = getattr(self.E, "bounded", None)
+        if B is not None and depth > -3 and isinstance(ty, (TSeq, TTuple)):
+            # refutation mode: sequences are short, so the shape of every item can be assumed eagerly
+            items = z3.Select(self.field_array("$item"), self.ref_id(sv))
+            n = len(ty.elems) if isinstance(ty, TTuple) else B
+            for k in range(n):
+                ety = ty.elems[k] if isinstance(ty, TTuple) else ty.elem
+                it = z3.Select(items, z3.IntVal(k))
+                ety = self.resolve_ty(ety)
+                if ety is None or isinstance(ety, TAny):
+                    continue
+                guard = z3.BoolVal(True) if isinstance(ty, TTuple) else (z3.Select(self.field_array("$len"), self.ref_id(sv)) > k)
+                self.assume(z3.Implies(guard, ety.inv(it)))
+                if isinstance(ety, TRef) and not isinstance(ety, TFn):
+                    self.assume(z3.Implies(guard, Z.Val.id(it) < self.alloc0))
+                if isinstance(ety, (TSeq, TTuple, TObj, TAbs)):
+                    child = SV(it, ety)
+                    if isinstance(ety, TTuple):
+                        self.assume(z3.Implies(guard, z3.Select(self.field_array("$len"), Z.Val.id(it)) == len(ety.elems)))
+                    if isinstance(ety, TSeq):
+                        self.assume(z3.Implies(guard, z3.And(z3.Select(self.field_array("$len"), Z.Val.id(it)) >= 0, z3.Select(self.field_array("$len"), Z.Val.id(it)) <= B)))
+                    if isinstance(ety, (TObj, TAbs)):
+                        if isinstance(ety, TObj) and getattr(ety, "exact_cls", True):
+                            self.assume(z3.Implies(guard, z3.Select(self.field_array("$cls"), Z.Val.id(it)) == self.E.classes.cid(ety.cls)))
+                        elif isinstance(ety, TAbs):
+                            self.assume(z3.Implies(guard, z3.Select(self.field_array("$cls"), Z.Val.id(it)) == self.E.classes.cid("abs:" + ety.name)))
+                        for fname, fty in ety.fields.items():
+                            fty = self.resolve_ty(fty)
+                            if fty is not None and not isinstance(fty, TAny):
+                                self.assume(z3.Implies(guard, fty.inv(z3.Select(self.field_array(fname), Z.Val.id(it)))))
+                    else:
+                        self.touch(child, depth - 1)
+            return
         if depth <= 0 or not isinstance(ty, (TObj, TAbs)):
             return
         for fname, fty in ty.fields.items():
             child = self.typed(self.load_raw(self.ref_id(sv), fname), fty)
             if isinstance(self.resolve_ty(fty), (TObj, TAbs)):
+                self.assume(Z.Val.id(child.t) < self.alloc0)
+                self.touch(child, depth - 1)
+            elif B is not None and isinstance(self.resolve_ty(fty), (TSeq, TTuple)):
                 self.assume(Z.Val.id(child.t) < self.alloc0)
                 self.touch(child, depth - 1)
 
